@@ -1087,16 +1087,18 @@ impl Parser {
                                 self.advance();
 
                                 let meta = join_meta(meta, meta_end);
+                                let range_end = if is_inclusive {
+                                    Some(range_end)
+                                } else {
+                                    range_end.checked_sub(1)
+                                };
+                                let Some(range_end) = range_end else {
+                                    let e = ParseErrorEnum::InvalidRangeExpr;
+                                    self.errors.push(ParseError(e, meta));
+                                    return Err(());
+                                };
                                 Ok(Pattern::untyped(
-                                    PatternEnum::UnsignedInclusiveRange(
-                                        n,
-                                        if is_inclusive {
-                                            range_end
-                                        } else {
-                                            range_end - 1
-                                        },
-                                        type_suffix,
-                                    ),
+                                    PatternEnum::UnsignedInclusiveRange(n, range_end, type_suffix),
                                     meta,
                                 ))
                             } else {
@@ -1133,16 +1135,18 @@ impl Parser {
                                 self.advance();
 
                                 let meta = join_meta(meta, meta_end);
+                                let range_end = if is_inclusive {
+                                    Some(range_end)
+                                } else {
+                                    range_end.checked_sub(1)
+                                };
+                                let Some(range_end) = range_end else {
+                                    let e = ParseErrorEnum::InvalidRangeExpr;
+                                    self.errors.push(ParseError(e, meta));
+                                    return Err(());
+                                };
                                 Ok(Pattern::untyped(
-                                    PatternEnum::SignedInclusiveRange(
-                                        n,
-                                        if is_inclusive {
-                                            range_end
-                                        } else {
-                                            range_end - 1
-                                        },
-                                        type_suffix,
-                                    ),
+                                    PatternEnum::SignedInclusiveRange(n, range_end, type_suffix),
                                     meta,
                                 ))
                             } else {
